@@ -721,3 +721,39 @@ val symbols_to_graph_M : symbol list -> graph outcome
 val nx_edges : graph -> (char list * char list) list
 
 val varlike_id : char list -> bool
+
+val wsn : bool -> char list -> bool
+
+val no_open_ws : bool -> char list -> bool
+
+val no_ws_close : char list -> bool
+
+val normal : char list -> bool
+
+val dz : z -> char list
+
+val didx : pidx -> char list
+
+val dtext : ntok -> char list
+
+val dflat : ntok list -> char list
+
+val denorm_text : neq -> char list
+
+val tok_term : ptype -> ntok -> term option
+
+val tok_code : ntok -> char list
+
+val cflat : ntok list -> char list
+
+val neq_code : neq -> char list
+
+val ttemplate : ntok list -> char list
+
+val dtok_ok : bool -> ntok -> char list -> bool
+
+val dwf_k : bool -> ntok list -> char list -> bool
+
+val text_char_ok : char -> bool
+
+val dq_ok : neq -> bool
